@@ -231,6 +231,8 @@ func bindOpsFull() []Action {
 		actEnable("a", "P1", "O1", 0),
 		actEnable("a", "P1", "O1", 30),
 		actRefund("a", "P1", "O1"),
+		// a lower price together with a top-up the owner cannot pay: refused at the transfer, after the pricing was parsed
+		actUpdate("a", "P1", "O1", 1000, "p1", 0),
 	}
 }
 
